@@ -148,6 +148,9 @@ def history(rng, tier):
         elif r < 0.54:
             q = rng.random()
             n = 0 if q < 0.1 else max(0, rows + rng.choice([-3, -2, -1, 1, 2, 3, 5])) if q < 0.9 else rows
+            # now and then far beyond one storage chunk (the frame grows without a limit), and back
+            if rng.random() < 0.08: n = rng.choice([300, 600, 1100, 5000, 9000])
+            elif rows > 200: n = rng.choice([3, 8, rows // 2])
             setrows(n)
             lines.append('df_nrows')
         elif r < 0.64:
